@@ -1,9 +1,155 @@
 import Pose.Wire
 import Pose.Driver.Lie
-/-! Driver ops for C19. -/
+import Pose.Model.Spline
+import Pose.Model.Traj
+/-! Driver ops for C19 (splines, APE/RPE, geodesic loss).
+
+Naturals travel as decimal tokens, numbers as exact `m:e` tokens, poses in PyPose storage order. -/
 namespace PP.Driver
 open PP Wire
 
-def opsC19 : List (String × Handler) := []
+namespace C19
+
+def natTok (ts : List String) : Except String (Nat × List String) :=
+  match ts with
+  | t :: rest => do let n ← nat t; return (n, rest)
+  | [] => throw "arity"
+
+def numTok (ts : List String) : Except String (B × List String) :=
+  match ts with
+  | t :: rest => do let x ← num t; return (x, rest)
+  | [] => throw "arity"
+
+def numsTok (n : Nat) (ts : List String) : Except String (List B × List String) := do
+  let (a, rest) ← Wire.take n ts
+  let xs ← nums a
+  return (xs, rest)
+
+def se3List (n : Nat) (l : List B) : List (SE3 B) := (List.range n).map fun i => toSE3 l (7 * i)
+
+def fnOf {β : Type} (d : β) (xs : List β) : Nat → β := fun i => xs.getD i d
+
+def etypeOf : Nat → Traj.EType
+  | 0 => .translation | 1 => .rotation | 2 => .pose | 3 => .radian | _ => .degree
+def modeOf : Nat → Traj.AlignMode
+  | 0 => .none | 1 => .origin | _ => .svd
+
+def fmtPairs (ps : List (Nat × Nat)) : String := fmtNats (ps.flatMap fun p => [p.1, p.2])
+
+/-- a trajectory block: `n stamps(n) poses(7n)` -/
+def trajTok (ts : List String) : Except String ((List B × List (SE3 B)) × List String) := do
+  let (n, ts) ← natTok ts
+  let (st, ts) ← numsTok n ts
+  let (ps, ts) ← numsTok (7 * n) ts
+  return ((st, se3List n ps), ts)
+
+end C19
+open C19
+
+def opsC19 : List (String × Handler) := [
+  -- c19.count num den
+  ("c19.count", fun ts => do
+      match ts with
+      | [a, b] => let num ← nat a; let den ← nat b
+                  if num == 0 then throw "zero-interval" else return toString (Spline.count num den)
+      | _ => throw "arity"),
+  -- c19.chs N kk interval p0 … p_{N-1}        (one coordinate)  ->  outLen values
+  ("c19.chs", fun ts => do
+      let (N, ts) ← natTok ts
+      let (kk, ts) ← natTok ts
+      let (iv, ts) ← numTok ts
+      let (p, ts) ← numsTok N ts
+      if !ts.isEmpty then throw "arity"
+      return fmt (Spline.chspline N kk iv (fnOf BigF.zero p))),
+  -- c19.chsidx N v  -> searchsorted index of v
+  ("c19.chsidx", fun ts => do
+      let (N, ts) ← natTok ts
+      let (v, _) ← numTok ts
+      return toString (Spline.searchIdx N v)),
+  -- c19.bs eps kk interval extrap N poses(7N)  ->  poses (7 numbers each) | err assert
+  ("c19.bs", fun ts => do
+      let (eps, ts) ← numTok ts
+      let (kk, ts) ← natTok ts
+      let (iv, ts) ← numTok ts
+      let (ex, ts) ← natTok ts
+      let (N, ts) ← natTok ts
+      let (ps, ts) ← numsTok (7 * N) ts
+      if !ts.isEmpty then throw "arity"
+      match Spline.bspline eps N kk iv (ex == 1) (fnOf SE3one (se3List N ps)) with
+      | none => throw "assert"
+      | some out => return fmt (out.flatMap SE3.toList)),
+  -- c19.bsw u -> w1 w2 w3 wend1 wend2 wend3
+  ("c19.bsw", numeric fun xs => match xs with
+      | [u] => .ok [Spline.bw1 u, Spline.bw2 u, Spline.bw3 u, Spline.bwEnd1, Spline.bwEnd2, Spline.bwEnd3]
+      | _ => .error "arity"),
+  -- c19.twist eps T0(7) xi(6) t  ->  T0 · Exp(t·xi)
+  ("c19.twist", withEps 14 fun e l =>
+      (SE3Mul (toSE3 l) (se3Exp e (Spline.scale (tose3 l 7) (l.getD 13 default)))).toList),
+  -- c19.bsat eps u P0 P1 P2 P3 (7 each) -> pose of one segment at parameter u
+  ("c19.bsat", withEps 29 fun e l =>
+      let P : Nat → SE3 B := fun i => toSE3 l (1 + 7 * i)
+      (Spline.bsplineAt e P 0 (l.getD 0 default)).toList),
+  -- c19.geo eps x(4) y(4)
+  ("c19.geo", withEps 8 fun e l => [Traj.geodesic e (qt l) (qt l 4)]),
+  -- c19.match diff off ns s… nl l…   -> i0 j0 i1 j1 …
+  ("c19.match", fun ts => do
+      let (d, ts) ← numTok ts
+      let (off, ts) ← numTok ts
+      let (ns, ts) ← natTok ts
+      let (s, ts) ← numsTok ns ts
+      let (nl, ts) ← natTok ts
+      let (l, _) ← numsTok nl ts
+      return fmtPairs (Traj.matchIdx d off s l)),
+  -- c19.pairs pm(0 frame/1 distance) deltaN delta rtol all n poses(7n)
+  ("c19.pairs", fun ts => do
+      let (pm, ts) ← natTok ts
+      let (dN, ts) ← natTok ts
+      let (dl, ts) ← numTok ts
+      let (rt, ts) ← numTok ts
+      let (all, ts) ← natTok ts
+      let (n, ts) ← natTok ts
+      let (ps, _) ← numsTok (7 * n) ts
+      return fmtPairs (Traj.pairId (if pm == 0 then .frame else .distance) dN dl rt (all == 1) (se3List n ps))),
+  -- c19.stats e1 … en -> max min mean median rmse sse std
+  ("c19.stats", numeric fun xs => .ok (Traj.stats xs).toList),
+  -- c19.mat2SO3 m(9 row-major) -> quaternion
+  ("c19.mat2SO3", numeric fun l => if l.length == 9 then
+      .ok (Traj.mat2SO3 (q 1 100000) ⟨v3 l 0, v3 l 3, v3 l 6⟩).toList else .error "arity"),
+  -- c19.ape eps etype mode T(8) diff off <r traj> <e traj>  ->  M  errors(M)  stats(7)
+  ("c19.ape", fun ts => do
+      let (eps, ts) ← numTok ts
+      let (et, ts) ← natTok ts
+      let (mode, ts) ← natTok ts
+      let (T, ts) ← numsTok 8 ts
+      let (d, ts) ← numTok ts
+      let (off, ts) ← numTok ts
+      let ((rs, rp), ts) ← trajTok ts
+      let ((es, ep), ts) ← trajTok ts
+      if !ts.isEmpty then throw "arity"
+      match Traj.apeErrors eps (q 1 100000) (fun _ _ => toSim T) (etypeOf et) d off (modeOf mode) rs rp es ep with
+      | none => throw "assert"
+      | some er => return s!"{er.length} " ++ fmt (er ++ (Traj.stats er).toList)),
+  -- c19.rpe eps etype mode T(8) diff off pm deltaN delta rtol all rpair <r traj> <e traj>
+  ("c19.rpe", fun ts => do
+      let (eps, ts) ← numTok ts
+      let (et, ts) ← natTok ts
+      let (mode, ts) ← natTok ts
+      let (T, ts) ← numsTok 8 ts
+      let (d, ts) ← numTok ts
+      let (off, ts) ← numTok ts
+      let (pm, ts) ← natTok ts
+      let (dN, ts) ← natTok ts
+      let (dl, ts) ← numTok ts
+      let (rt, ts) ← numTok ts
+      let (all, ts) ← natTok ts
+      let (rpair, ts) ← natTok ts
+      let ((rs, rp), ts) ← trajTok ts
+      let ((es, ep), ts) ← trajTok ts
+      if !ts.isEmpty then throw "arity"
+      match Traj.rpeErrors eps (q 1 100000) (fun _ _ => toSim T) (etypeOf et) d off (modeOf mode)
+          (if pm == 0 then .frame else .distance) dN dl rt (all == 1) (rpair == 1) rs rp es ep with
+      | none => throw "assert"
+      | some er => return s!"{er.length} " ++ fmt (er ++ (Traj.stats er).toList))
+]
 
 end PP.Driver
